@@ -38,7 +38,7 @@ class Boom(Exception):
 
 
 EXC = {"Boom": Boom, "AssertionError": AssertionError, "StopIteration": StopIteration}
-MEMO = "_Vertex__qa_nb_cache"
+from ..structure import memo_attrs
 
 
 class Wrapper:
@@ -245,13 +245,13 @@ def make_world(spec, seq, members, flag):
 
 
 def snapshot(w, uni):
-    return _canon.canon_graph(w.v + w.l + [uni], uid="keep", skip_attrs=(MEMO,))
+    return _canon.canon_graph(w.v + w.l + [uni], uid="keep", skip_attrs=memo_attrs())
 
 
 def attr_names(w, uni):
     out = {}
     for k, o in enumerate(w.v + w.l + [uni]):
-        out[k] = set(vars(o)) - {MEMO}
+        out[k] = set(vars(o)) - set(memo_attrs())
     return out
 
 
